@@ -60,6 +60,9 @@
 #include "unicode.h"
 #include "universalindentgui.h"
 #include "width.h"
+#ifdef UNCRUSTIFY_VERIF
+#include "verif_hooks.h"
+#endif
 
 #include <cerrno>
 #include <fcntl.h>
@@ -1972,6 +1975,9 @@ static void uncrustify_start(const deque<int> &data)
 {
    // Parse the text into chunks
    tokenize(data, Chunk::NullChunkPtr);
+#ifdef UNCRUSTIFY_VERIF
+   verif_dump_chunks('T');
+#endif
    PROT_THE_LINE
 
    cpd.unc_stage = unc_stage_e::HEADER;
@@ -2409,6 +2415,10 @@ void uncrustify_file(const file_mem &fm, FILE *pfout, const char *parsed_file,
       align_backslash_newline();
    }
    dump_step(dump_file, "Final version");
+
+#ifdef UNCRUSTIFY_VERIF
+   verif_dump_chunks('O');
+#endif
 
    // which output is to be done?
    if (cpd.html_file == nullptr)
